@@ -14,7 +14,7 @@ m = {
  "hooks": {
   "guard": "verif",
   "enable": "go build -tags verif (the ./check script builds the harness module with replace directives pointing at /repo and /repo/v2)",
-  "baseline_off_cmd": "cd /repo && export GOFLAGS=-mod=mod GOPROXY=off GOSUMDB=off GOTOOLCHAIN=local && go test -vet=off -count=1 ./... && cd v2 && go test -vet=off -count=1 ./...",
+  "baseline_off_cmd": "/verif/baseline_off.sh",
   "source_commits": HOOK_COMMITS,
   "add_only": True,
  },
